@@ -1508,16 +1508,35 @@ impl<'a> Lexer<'a> {
     }
 }
 
-/// Value of the digits of a `0x` / `0o` / `0b` literal.  The literal may exceed 64 bits: its
-/// value is the nearest double (exact integer arithmetic up to 128 bits, whose conversion
-/// rounds correctly; beyond that the digits are accumulated in floating point).
+/// Value of the digits of a `0x` / `0o` / `0b` literal: the nearest double, whatever the
+/// length of the literal.  The radix is a power of two, so the leading 120 bits are kept
+/// exactly, the remaining digits only add to the binary exponent, and a non-zero digit among
+/// them is remembered as a sticky bit (it decides a tie when the integer is rounded).
 fn radix_literal_value(digits: &str, radix: u32) -> f64 {
-    match u128::from_str_radix(digits, radix) {
-        Ok(value) => value as f64,
-        Err(_) => digits.chars().fold(0.0, |acc, ch| {
-            acc * radix as f64 + ch.to_digit(radix).unwrap_or(0) as f64
-        }),
+    let bits_per_digit = radix.trailing_zeros();
+    let mut mantissa: u128 = 0;
+    let mut dropped_bits: i32 = 0;
+    let mut sticky = false;
+    for ch in digits.chars() {
+        let d = ch.to_digit(radix).unwrap_or(0) as u128;
+        if mantissa >> 120 == 0 {
+            mantissa = (mantissa << bits_per_digit) | d;
+        } else {
+            sticky |= d != 0;
+            dropped_bits = dropped_bits.saturating_add(bits_per_digit as i32);
+        }
     }
+    if sticky {
+        mantissa |= 1;
+    }
+    let mut value = mantissa as f64;
+    // scale by 2^dropped_bits in exact steps (a single power could overflow before the product does)
+    while dropped_bits > 0 && value.is_finite() {
+        let step = dropped_bits.min(1000);
+        value *= 2f64.powi(step);
+        dropped_bits -= step;
+    }
+    value
 }
 
 
